@@ -987,6 +987,41 @@ def sweep(ctx, rn, env, tag, thorough_extra=False):
                 rn.case(tag + "pair:keyshares", {"keyShares": ks, "eccCurves": ecc, "dhGroups": dh}, env)
 
 
+def report_use_mutation(ctx, r, rep):
+    """the settings objects handed to a handshake (the caller's original and its validated copy, which share
+    lists by reference) must come back untouched"""
+    for m in r.get("settings_mutated") or []:
+        who, field, how = (m.split(":") + ["", ""])[:3]
+        ctx.violation("c19:use-mutates-settings:" + field,
+                      "a handshake changed the caller's settings object: %s.%s (%s)" % (who, field, how),
+                      dict(rep, mutated=r["settings_mutated"]))
+
+
+def judge_sequence(ctx, seq):
+    from . import c19_use as U
+    r = U.run_sequence(seq)
+    if "invalid" in r:
+        ctx.count("pair:invalid:reuse")
+        return
+    ctx.case(key=("reuse", repr(sorted(seq.items(), key=repr))),
+             sample={"kind": seq["kind"], "steps": [s["entry"] for s in seq["steps"]]} if ctx.evaluations % 53 == 0 else None)
+    ctx.count("pair-kind:" + seq["kind"])
+    rep = dict(seq, stage="reuse-sequence")
+    rep["observed"] = r
+    for m in r["mutated"]:
+        who, field, how = (m.split(":") + ["", ""])[:3]
+        ctx.violation("c19:use-mutates-settings:" + field,
+                      "using a settings object for handshakes changed it: %s.%s (%s)" % (who, field, how), rep)
+    for m in r["validate_changed"]:
+        ctx.violation("c19:use-changes-validate-result:" + m.split(":", 1)[1].split(" ")[0].strip("<>"),
+                      "validate() of the settings object gives a different result after the object was used: %s" % m, rep)
+    for st in r["steps"]:
+        if not st["same"]:
+            ctx.violation("c19:reuse-changes-outcome:" + st["entry"],
+                          "step %d (%s) with the already used settings object ends differently (%s) than with a fresh equal "
+                          "object (%s)" % (st["step"], st["entry"], st["with_shared_objects"], st["with_fresh_objects"]), rep)
+
+
 def judge_pair(ctx, table, kind, cspec, sspec, cred, alpn, server_dh_bits=None):
     """run one pair in the lab and compare with the independent expectation; returns a short verdict"""
     from . import c19_pairs as P
@@ -996,6 +1031,7 @@ def judge_pair(ctx, table, kind, cspec, sspec, cred, alpn, server_dh_bits=None):
     if r["outcome"].startswith("invalid"):
         ctx.count("pair:" + r["outcome"])
         return "invalid"
+    report_use_mutation(ctx, r, rep)
     exp, why, v = P.compatible(table, r["cset"], r["sset"], cred)
     ctx.case(key=("pair", repr(sorted(cspec.items())), repr(sorted(sspec.items())), cred, repr(alpn)),
              sample={"kind": kind, "client": cspec, "server": sspec, "cred": cred, "expected": exp, "why": why,
@@ -1079,6 +1115,7 @@ def judge_psk(ctx, table, label, spec):
                      "psk_selected": r.get("psk_selected")} if ctx.evaluations % 701 == 0 else None)
     ctx.count("pair-kind:" + label)
     ctx.count("pair-cred:" + spec["cred"])
+    report_use_mutation(ctx, r, dict(spec, stage="psk-pair", label=label))
     bad, text = psk_verdict(table, spec, r)
     if text.startswith("not judged") or text.startswith("first connection not"):
         ctx.count("info:pair-not-judged:psk")
@@ -1125,6 +1162,7 @@ def judge_entry(ctx, otable, label, spec):
     ctx.case(key=("entry", repr(sorted(spec.items(), key=repr))),
              sample={"kind": label, "spec": spec, "outcome": r["outcome"]} if ctx.evaluations % 701 == 0 else None)
     ctx.count("pair-kind:" + label)
+    report_use_mutation(ctx, r, dict(spec, stage="entry-pair", label=label))
     key, text, exp, why = entry_verdict(otable, spec, r)
     ctx.count("pair-expected:%s:%s" % (exp, why if exp is not True else "ok"))
     if exp is None:
@@ -1170,6 +1208,7 @@ def judge_multipsk(ctx, table, label, spec):
              sample={"kind": label, "spec": spec, "outcome": r["outcome"], "selected": r.get("selected_identity")}
              if ctx.evaluations % 701 == 0 else None)
     ctx.count("pair-kind:" + label)
+    report_use_mutation(ctx, r, dict(spec, stage="multipsk-pair", label=label))
     key, text, must, why = multipsk_verdict(table, spec, r)
     ctx.count("pair-expected:%s:%s" % (must, why if must is not True else "ok"))
     if must is None:
@@ -1195,8 +1234,12 @@ def entry_phase(ctx, table):
 def pairs_phase(ctx):
     """second half of C19: compatible validated settings connect (live lab, real environment)"""
     from . import c19_pairs as P
+    from . import c19_use as U
     table = P.suite_table()
     ctx.extra["suite_table_size"] = len(table)
+    # re-use of one settings object across different handshakes (directed, never cut by a budget)
+    for seq in U.reuse_sequences():
+        judge_sequence(ctx, seq)
     for (kind, c, s, cred, alpn) in P.systematic_pairs():
         judge_pair(ctx, table, kind, c, s, cred, alpn)
     for _ in range(ctx.pick(1500, 22000)):
@@ -1332,6 +1375,18 @@ def run(ctx):
 
 def replay(ctx, rep):
     inp = rep["input"]
+    if inp.get("stage") == "reuse-sequence":
+        from . import c19_use as U
+        seq = {k: v for k, v in inp.items() if k in ("kind", "client", "server", "steps", "share", "validated")}
+        r = U.run_sequence(seq)
+        print("sequence:", seq)
+        for st in r.get("steps", []):
+            print(" step", st["step"], st["entry"], "same as with fresh objects:", st["same"])
+            if not st["same"]:
+                print("   shared:", st["with_shared_objects"])
+                print("   fresh: ", st["with_fresh_objects"])
+        print("settings changed by use:", r.get("mutated"), " validate() result changed:", r.get("validate_changed"))
+        return bool(r.get("mutated") or r.get("validate_changed") or any(not st["same"] for st in r.get("steps", [])))
     if inp.get("stage") in ("entry-pair", "multipsk-pair"):
         from . import c19_pairs as P, c19_entry as E
         spec = {k: v for k, v in inp.items() if k not in ("stage", "label", "observed", "broken_obligations",
